@@ -644,7 +644,9 @@ Definition request_url (plain : bool) (host : str) (ref_page : N) (q : request) 
        match q_mount q with Some (d, from) => b "?mount=" ++ d ++ b "&from=" ++ from | None => [] end
    | ESession id => url_upload plain (rf []) ++ dec_of_N id
    | EReferrers d =>
-       url_referrers plain (rf d) ++ (if ref_page =? 0 then [] else b "?n=" ++ dec_of_N ref_page)
+       (* pingReferrers (the zero digest) never sends the page size *)
+       url_referrers plain (rf d) ++
+       (if (ref_page =? 0) || str_eqb d zero_digest then [] else b "?n=" ++ dec_of_N ref_page)
    end)
   (* the final PUT of an upload: the Location it was given plus the digest *)
   ++ match q_digest q with Some d => b "?digest=" ++ esc_colon d | None => [] end.
